@@ -301,7 +301,7 @@ def write_evidence(prop, tier, seed, agg, violations, extra=None):
         'wall_s': round(agg['wall'], 3), 'violations': violations,
     }
     path = os.path.join(EVIDENCE_DIR, f'{prop}.json')
-    tmp = path + '.tmp'
+    tmp = f'{path}.{os.getpid()}.tmp'     # two checks of one property may run at the same time (tools/*_eval.py)
     with open(tmp, 'w') as f:
         json.dump(ev, f, indent=1, default=repr)
     os.replace(tmp, path)
